@@ -130,6 +130,7 @@ type Interp struct {
 	curItem Item
 	startPrefix []pfx
 	lastReset int
+	traceN int
 	itemEpoch int
 	touched []*fnInfo
 	domCheckEvery int
@@ -451,6 +452,12 @@ func (in *Interp) callFunction(caller *frame, fn *ssa.Function, args []Val, env 
 			return nil
 		}
 	}
+	if traceCalls {
+		in.traceN++
+		if in.traceN < 3000 {
+			fmt.Fprintf(os.Stderr, "%*s%s\n", in.callDepth, "", name)
+		}
+	}
 	in.callDepth++
 	if in.callDepth > 400 {
 		panic(pathEnd{endBudget, "call depth > 400 in " + name})
@@ -630,7 +637,7 @@ func (in *Interp) exec(fr *frame, ci *cinstr) cont {
 			in.symStore(sp, fr.op(ci, 1))
 			break
 		}
-		*in.deref(p) = copyVal(fr.op(ci, 1))
+		storeInto(in.deref(p), fr.op(ci, 1))
 	case *ssa.If:
 		c := fr.op(ci, 0).(*Term)
 		succ := 1
@@ -837,5 +844,6 @@ func (in *Interp) dumpStack(fr *frame) string {
 	return sb.String()
 }
 
+var traceCalls = os.Getenv("GOSYMX_TRACE") != ""
 var _ = os.Stderr
 var _ = token.ADD
